@@ -56,3 +56,36 @@ Definition from_bytes_with_padding (element_bytes : nat) (try_from_slice : list 
 Definition f64_from_bytes_with_padding := from_bytes_with_padding 8 f64_try_from_slice.
 Definition f62_from_bytes_with_padding := from_bytes_with_padding 8 f62_try_from_slice.
 Definition f128_from_bytes_with_padding := from_bytes_with_padding 16 f128_try_from_slice.
+
+(* ------------------------------------------------------------------------------------------------
+   Coverage round: the zero-copy memory views (little-endian target).
+     AsBytes::as_bytes(&self)                = the ELEMENT_BYTES bytes of the INTERNAL word
+     FieldElement::elements_as_bytes(&[Self]) = concatenation of those
+     unsafe FieldElement::bytes_as_elements(&[u8]):
+         if bytes.len() % ELEMENT_BYTES != 0 { return Err }          length check
+         if (p as usize) % align_of::<uN>() != 0 { return Err }      alignment check on the ADDRESS
+         Ok(from_raw_parts(p as *const Self, len))                    no range check on the words
+   The address of the first byte is an explicit parameter [addr]. *)
+Definition as_bytes (nb : nat) (w : Z) : list Z := to_le_bytes nb w.
+Definition elements_as_bytes (nb : nat) (ws : list Z) : list Z := flat_map (to_le_bytes nb) ws.
+
+Fixpoint chunks_le (nb : nat) (count : nat) (l : list Z) : list Z :=
+  match count with
+  | O => []
+  | S c => of_le_bytes (firstn nb l) :: chunks_le nb c (skipn nb l)
+  end.
+
+Definition bytes_as_elements (nb align : nat) (addr : Z) (bytes : list Z) : option (list Z) :=
+  if negb (length bytes mod nb =? 0)%nat then None
+  else if negb (addr mod Z.of_nat align =? 0) then None
+  else Some (chunks_le nb (length bytes / nb) bytes).
+
+Definition f64_as_bytes := as_bytes 8.
+Definition f62_as_bytes := as_bytes 8.
+Definition f128_as_bytes := as_bytes 16.
+Definition f64_elements_as_bytes := elements_as_bytes 8.
+Definition f62_elements_as_bytes := elements_as_bytes 8.
+Definition f128_elements_as_bytes := elements_as_bytes 16.
+Definition f64_bytes_as_elements := bytes_as_elements 8 8.      (* align_of::<u64>()  = 8 *)
+Definition f62_bytes_as_elements := bytes_as_elements 8 8.
+Definition f128_bytes_as_elements := bytes_as_elements 16 16.   (* align_of::<u128>() = 16 on the x86-64 target *)
